@@ -19,10 +19,25 @@ MAX_ROUNDS = 4
 
 
 def load_known():
+    """reference body ids -> signature (list of the types of the return place and the parameters) or None"""
     if not os.path.exists(KNOWN_FILE):
         return None
+    out = {}
     with open(KNOWN_FILE) as fh:
-        return {l.rstrip("\n") for l in fh if l.strip()}
+        for l in fh:
+            l = l.rstrip("\n")
+            if not l.strip():
+                continue
+            if "\t" in l:
+                bid, sig = l.split("\t", 1)
+                out[bid] = sig
+            else:
+                out[l] = None
+    return out
+
+
+def _sig(b):
+    return " | ".join(x.get("ty", "?") for x in b.locals[:b.argc + 1])
 
 
 def _is_test(bid):
@@ -113,6 +128,7 @@ def inline_new_helpers(prog):
     report = {"reference_bodies": len(known) if known is not None else None, "new_helpers": [], "spliced_sites": 0, "dropped": [], "kept": []}
     if known is None or os.environ.get("VERIF_NO_INLINE"):
         return report
+    report["renamed"] = ["%s -> judged as %s" % (n, m) for n, m in alias_renamed(prog, known)]
 
     def base(bid):
         return re.sub(r"#\d+$", "", bid)
@@ -229,6 +245,8 @@ def _after_stmts(block, st):
                 st[x] = rv["variant"]
             elif rv.get("k") == "use" and _whole_local(rv.get("o")) is not None and _whole_local(rv.get("o")) in st:
                 st[x] = st[_whole_local(rv["o"])]
+            elif rv.get("k") == "use" and isinstance(rv.get("o"), dict) and isinstance(rv["o"].get("k"), dict) and rv["o"]["k"].get("ty") == "bool" and ("bool" in rv["o"]["k"] or "int" in rv["o"]["k"]):
+                st[x] = "#true" if rv["o"]["k"].get("bool", rv["o"]["k"].get("int")) else "#false"  # a helper answering `true` / `false` on different paths
             else:
                 st.pop(x, None)
     return st
@@ -272,6 +290,10 @@ def partition(body, cap=None):
                     discr[s["d"][0]] = (p[0], {v: n for v, n in s["rv"].get("variants", [])})
     # only locals whose variant is tested later matter: discriminated locals and what flows into them
     interesting = {v[0] for v in discr.values()}
+    for bl in body.blocks:
+        t_ = bl.get("t") or {}
+        if t_.get("k") == "switch" and t_.get("dty") == "bool" and _whole_local(t_.get("d")) is not None:
+            interesting.add(_whole_local(t_["d"]))
     changed = True
     while changed:
         changed = False
@@ -372,6 +394,13 @@ def partition(body, cap=None):
                 edges.append(("t", t["t"], _after_call(t, st)))
             if t.get("u") is not None:
                 edges.append(("u", t["u"], st))
+        elif k == "switch" and t.get("dty") == "bool" and st.get(_whole_local(t.get("d"))) in ("#true", "#false"):
+            val = 1 if st[_whole_local(t["d"])] == "#true" else 0
+            hit = [tgt for v, tgt in t["targets"] if v == val]
+            if hit:
+                edges.append((("sw", val), hit[0], st))
+            else:
+                edges.append((("sw", "otherwise"), t["otherwise"], st))
         elif k == "switch":
             dl = _whole_local(t.get("d"))
             subj = discr.get(dl)
@@ -458,10 +487,75 @@ def partition(body, cap=None):
 
 
 def freeze(prog):
-    ids = sorted({re.sub(r"#\d+$", "", bid) for bid in prog.bodies})
+    rows = {}
+    for bid, b in prog.bodies.items():
+        rows.setdefault(re.sub(r"#\d+$", "", bid), _sig(b))
     with open(KNOWN_FILE, "w") as fh:
-        fh.write("\n".join(ids) + "\n")
-    return len(ids)
+        for k in sorted(rows):
+            fh.write("%s\t%s\n" % (k, rows[k]))
+    return len(rows)
+
+
+def alias_renamed(prog, known):
+    """a reference function that is gone while exactly one new function with the same owner (module / impl) and the same
+    signature appeared is taken to be that function renamed: the new body is filed under the old id (and every call target,
+    function item and nested closure id is rewritten), so the anchored rules keep judging it"""
+    def base(bid):
+        return re.sub(r"#\d+$", "", bid)
+    cur = {base(bid) for bid in prog.bodies}
+    missing = [k for k in known if k not in cur and "{closure" not in k and "{constant" not in k and not _is_test(k) and known[k]]
+    if not missing:
+        return []
+    fresh = [b for b in prog.bodies.values() if base(b.id) not in known and b.parent is None and not _is_test(b.id) and b.kind in ("fn", "method")]
+    pairs = []
+    used = set()
+    for m in sorted(missing):
+        owner = m.rsplit("::", 1)[0]
+        cands = [b for b in fresh if b.id.rsplit("::", 1)[0] == owner and _sig(b) == known[m] and b.id not in used]
+        others = [k for k in missing if k != m and k.rsplit("::", 1)[0] == owner and known[k] == known[m]]
+        if len(cands) == 1 and not others:
+            pairs.append((cands[0].id, m))
+            used.add(cands[0].id)
+    if not pairs:
+        return []
+    ren = dict(pairs)
+
+    def fix_name(x):
+        if not isinstance(x, str):
+            return x
+        for n, m in ren.items():
+            if x == n:
+                return m
+            if x.startswith(n + "::{"):
+                return m + x[len(n):]
+        return x
+
+    def walk(o):
+        if isinstance(o, dict):
+            for k_, v in list(o.items()):
+                if k_ in ("callee", "rcallee", "fn", "def") and isinstance(v, str):
+                    o[k_] = fix_name(v)
+                else:
+                    walk(v)
+        elif isinstance(o, list):
+            for v in o:
+                walk(v)
+    for b in list(prog.bodies.values()):
+        for bl in b.blocks:
+            walk(bl)
+    for b in list(prog.bodies.values()):
+        nid = fix_name(b.id)
+        if b.parent:
+            b.parent = fix_name(b.parent)
+        if b.root:
+            b.root = fix_name(b.root)
+        if nid != b.id:
+            del prog.bodies[b.id]
+            b.id = nid
+            prog.bodies[nid] = b
+    prog._children = None
+    prog._callers = None
+    return pairs
 
 
 if __name__ == "__main__":
